@@ -135,7 +135,7 @@ def rand_checksum_entries(r):
     n = 1 + r.below(3)
     algs = []
     pool = ["sha1", "sha256", "md5", "sha512", "b", "a1", "x-y", "é", "a:b", "a:b c", "x:y&z", "s:h+1", " md5", "sha", "sha2", "sha2-256", "sha-256", "sha_256",
-            "sha512-256", "sha3", "sha3-256", "blake2b", "blake2b-256", "md"]
+            "sha512-256", "sha3", "sha3-256", "blake2b", "blake2b-256", "md", "a\u00e9", "\u00e9a", "s\u00e91", "x\u03c3", "\u00e0\u00e8"]
     for _ in range(n):
         a = r.pick(pool)
         if a not in algs:
@@ -156,6 +156,18 @@ def checksum_canon(entries):
     return ",".join("%s:%s" % (a, h) for a, h in sorted(entries, key=lambda e: e[0].encode("utf-8")))
 
 
+def flipcase_u(r, s):
+    """like flipcase, and non-ASCII letters with a simple one-to-one upper-case form are flipped too"""
+    out = []
+    for c in s:
+        if c.isascii():
+            out.append(c.upper() if r.chance(1, 2) else c.lower())
+        else:
+            u = c.upper()
+            out.append(u if (len(u) == 1 and u.lower() == c and r.chance(1, 2)) else c)
+    return "".join(out)
+
+
 def checksum_spell(r, entries):
     es = r.shuffle(entries)
     m = r.below(8)
@@ -169,7 +181,7 @@ def checksum_spell(r, entries):
     if m == 2:
         # already canonical
         return ",".join("%s:%s" % (a, h) for a, h in sorted(es, key=lambda e: e[0].encode()))
-    return ",".join("%s:%s" % (flipcase(r, a), flipcase(r, h)) for a, h in es)
+    return ",".join("%s:%s" % (flipcase_u(r, a), flipcase(r, h)) for a, h in es)
 
 
 class Tuple:
